@@ -11,8 +11,8 @@ IsEv(e) == l <= Len(Trace) /\ Ln.ev = e /\ l' = l + 1
 LvlOf(s, id) == IF \E i \in DOMAIN s : s[i][1] = id THEN s[CHOOSE i \in DOMAIN s : s[i][1] = id][2] ELSE 0
 V1Lvl(t, id) == IF \E i \in DOMAIN v1 : v1[i][1] = t /\ v1[i][2] = id
                 THEN v1[CHOOSE i \in DOMAIN v1 : v1[i][1] = t /\ v1[i][2] = id][3] ELSE 0
-MTopics == {"A", "B"}
-MIds == {"a", "b"}
+MTopics == {"A", "AB"}
+MIds == {"a", "ab"}
 SameLevels(o) == \A t \in MTopics, id \in MIds : LvlOf(o[t], id) = V1Lvl(t, id)
 OnlyKnown(o) == \A t \in MTopics : \A i \in DOMAIN o[t] : o[t][i][1] \in MIds /\ o[t][i][2] \in 0..3
 
